@@ -9,6 +9,7 @@ Emboss/Spec/View.lean; lemmas: Emboss/Lemmas/{ExprMono,ViewMono,ViewMono2,Synth}
 import Emboss.Lemmas.ViewMono2
 import Emboss.Lemmas.Synth
 import Emboss.Lemmas.Locality
+import Emboss.Lemmas.ViewRef
 namespace Emboss.View
 open Emboss.ViewSpec
 
@@ -311,6 +312,146 @@ example :
     evalInt { read := fun _ => none, param := fun _ => none, has := fun _ => none, lv := none }
       (synthNext (.const (.int 3)) (.const (.int 2))) = some 5 := by
   decide
+
+end Emboss.View
+
+namespace Emboss.View
+open Emboss.ViewRef
+
+/-! ### the generated-code model refines the reference semantics R (Spec/ViewRef.lean)
+
+Full statement (DESIGN §7, `C01_G_refines_R`): for every accepted module, structure, parameters
+and buffer, every observation of `G` equals what the reference semantics R defines.  R is now a
+Lean object for its scalar / presence / size core: `RFact`, the least set of facts closed under
+the documented rules (no fuel, no storage model).  Proved for the fragment `flatStruct`: byte
+structures whose fields are `UInt`/`Int` scalars at possibly dynamic offsets, conditional
+fields, virtual fields, parameters and `[requires]`, without constant-folding annotations.
+Outside the fragment (nested structures, `bits`, arrays, aliases, BCD/Flag/enum leaves, folded
+definitions — where R is only a lower bound, D8) the comparison with R stays in Python
+(`embref.py`, every random case of every run). -/
+
+/-- **G refines R** (soundness): whatever the generated view reports as known on a flat
+structure — a readable field with its value, a presence flag — is a fact of the reference
+semantics, at every fuel. -/
+theorem C01_G_refines_R_partial (m : Module) (sd : StructDef) (hflat : flatStruct sd = true)
+    (ps : List Val) (buf : List Nat) (n : Nat) :
+    (∀ p v, (G m n).read (rootView sd ps buf) p = some v → RFact sd ps buf (.val p v)) ∧
+    (∀ p b, (G m n).has (rootView sd ps buf) p = some b → RFact sd ps buf (.pres p b)) :=
+  G_sound m sd hflat ps buf n
+
+/-- **R is reported by G** (completeness): every fact of the reference semantics about a flat
+structure (whose validators mention only `this` and parameters) is reported by the generated
+view once the fuel statically covers the field (`need`, what `fuelOK` checks on every real IR). -/
+theorem C01_R_reported_by_G_partial (m : Module) (sd : StructDef) (hflat : flatStruct sd = true)
+    (hloc : reqLocal sd = true) (ps : List Val) (buf : List Nat) (n : Nat) :
+    (∀ p v, RFact sd ps buf (.val p v) → need m n sd p = true →
+      (G m n).read (rootView sd ps buf) p = some v) ∧
+    (∀ p b, RFact sd ps buf (.pres p b) → need m n sd p = true →
+      (G m n).has (rootView sd ps buf) p = some b) :=
+  ⟨fun p v h => G_complete m sd hflat hloc ps buf n (.val p v) h,
+   fun p b h => G_complete m sd hflat hloc ps buf n (.pres p b) h⟩
+
+/-- Together: with enough fuel the generated view and the reference agree exactly, value by
+value and presence by presence; in particular R is *functional* on the fragment (a field has at
+most one value, a presence at most one truth value) because `G` is a function. -/
+theorem C01_G_equals_R_partial (m : Module) (sd : StructDef) (hflat : flatStruct sd = true)
+    (hloc : reqLocal sd = true) (ps : List Val) (buf : List Nat) (n : Nat) (p : List String)
+    (hn : need m n sd p = true) :
+    (∀ v, (G m n).read (rootView sd ps buf) p = some v ↔ RFact sd ps buf (.val p v)) ∧
+    (∀ b, (G m n).has (rootView sd ps buf) p = some b ↔ RFact sd ps buf (.pres p b)) :=
+  ⟨fun v => ⟨(G_sound m sd hflat ps buf n).1 p v,
+             fun h => G_complete m sd hflat hloc ps buf n (.val p v) h hn⟩,
+   fun b => ⟨(G_sound m sd hflat ps buf n).2 p b,
+             fun h => G_complete m sd hflat hloc ps buf n (.pres p b) h hn⟩⟩
+
+/-- "The size is the largest end of any present field", on the reference: if R gives the
+synthesised size field (`$size_in_bytes = synthSize fields`, cf. `sizeIsSynth`) the value `r`,
+then there is an assignment `ρ` consisting of R-facts only under which `r` is `ViewSpec.size` of
+the fields' extents — the largest `start + size` over the fields R says are present, all of
+whose presences and locations R knows. -/
+theorem C01_R_size_is_max_end_partial (sd : StructDef) (ps : List Val) (buf : List Nat)
+    (fs : List Field) (hfs : fs.all flatField = true) (x : String) (f : Field)
+    (hf : sd.field x = some f) (hk : f.kind = .virt (synthSize fs) none) (r : Int)
+    (h : RFact sd ps buf (.val [x] (.int r))) :
+    ∃ ρ : Env, (∀ p v, ρ.read p = some v → RFact sd ps buf (.val p v)) ∧
+      (∀ p c, ρ.has p = some c → RFact sd ps buf (.pres p c)) ∧
+      ViewSpec.size (extents ρ fs) = some r := by
+  cases h with
+  | scalar ρ hf' hk' => rw [hf] at hf'; cases hf'; rw [hk] at hk'; cases hk'
+  | virt ρ hf' hk' hr hh hp hl hv hreq =>
+    rw [hf] at hf'; cases hf'
+    rw [hk] at hk'; cases hk'
+    refine ⟨ρ, hr, hh, ?_⟩
+    rw [evalR_eq_eval _ _ (foldFree_synthSize fs hfs), C01_size_is_max_end] at hv
+    cases hsz : ViewSpec.size (extents ρ fs) with
+    | none => rw [hsz] at hv; cases hv
+    | some q => rw [hsz] at hv; simp only [Option.map_some, Option.some.injEq, Val.int.injEq] at hv; rw [hv]
+
+/-- `C01_constants` (partial): `$max_size_in_*` / `$min_size_in_*` (and every other virtual field
+whose value the compiler folded to a literal, without `[requires]`) read the same constant on
+**every** view — any buffer (the empty one included), any parameters, even the null view of an
+absent field — at every fuel ≥ 1.  That the constants bracket the run-time size
+(`Min ≤ SizeIn… ≤ Max`) is `C05_bounds_functions` (`$upper_bound`/`$lower_bound` are sound) on
+the bounds model; here it is checked on every observation of every run
+(`harness/corr/C01.py: constants_violations`). -/
+theorem C01_constants_partial (m : Module) (o : Oracle) (w : SView) (x : String) (f : Field)
+    (hf : w.sd.field x = some f) (c : Val) (orig : Expr) (hk : f.kind = .virt (.fold c orig) none) :
+    (step m o).read w [x] = some c ∧ (step m o).okAt w [x] = true := by
+  simp [step, hf, hk, virtRead, eval, valueIsOk]
+
+def exConstSd : StructDef :=
+  { name := "S", unit := 8, params := [], requires := none, sizeField := "$size",
+    fields := [ { name := "$max", anon := false, cond := .const (.bool true),
+                  kind := .virt (.fold (.int 5) (.op .max (.cons (.ref ["q"]) .nil))) none } ] }
+
+/-- non-vacuity: a `$max_size_in_bytes = 5` field on the empty buffer and on a null view -/
+example :
+    (G { structs := [exConstSd] } 1).read (rootView exConstSd [] []) ["$max"] = some (.int 5) ∧
+    (G { structs := [exConstSd] } 1).read (nullView exConstSd) ["$max"] = some (.int 5) := by
+  decide
+
+/-- `struct Flat(p: UInt:8): 0 [+1] UInt n / if n > 0: n+1 [+1] UInt y [requires: this < 200] /
+let v = y + p / let $size = …` -/
+def exFlatPhys : List Field :=
+  [ { name := "n", anon := false, cond := .const (.bool true),
+      kind := .phys (.const (.int 0)) (.const (.int 1)) (.scalar .uint 8 none) .le },
+    { name := "y", anon := false, cond := .op .gt (.cons (.ref ["n"]) (.cons (.const (.int 0)) .nil)),
+      kind := .phys (.op .add (.cons (.ref ["n"]) (.cons (.const (.int 1)) .nil))) (.const (.int 1))
+        (.scalar .int 8 (some (.op .lt (.cons .lv (.cons (.const (.int 100)) .nil))))) .le },
+    { name := "v", anon := false, cond := .const (.bool true),
+      kind := .virt (.op .add (.cons (.ref ["y"]) (.cons (.param "p") .nil))) none } ]
+
+def exFlatSize : Field :=
+  { name := "$size", anon := false, cond := .const (.bool true), kind := .virt (synthSize exFlatPhys) none }
+
+def exFlat : StructDef :=
+  { name := "Flat", unit := 8, params := ["p"], requires := none, sizeField := "$size",
+    fields := exFlatPhys ++ [exFlatSize] }
+
+/-- non-vacuity of the three refinement theorems: the example is inside the fragment, fuel 4
+covers every field, and on `01 00 fe` (n = 1, y at offset 2 = -2) the model computes
+`v = y + p = 5` for `p = 7`, the size 3, and `y` absent for `n = 0`. -/
+example :
+    flatStruct exFlat = true ∧ reqLocal exFlat = true ∧ exFlatPhys.all flatField = true ∧
+    need { structs := [exFlat] } 4 exFlat ["v"] = true ∧
+    need { structs := [exFlat] } 4 exFlat ["$size"] = true ∧
+    (G { structs := [exFlat] } 4).read (rootView exFlat [.int 7] [1, 0, 254]) ["v"] = some (.int 5) ∧
+    (G { structs := [exFlat] } 4).read (rootView exFlat [.int 7] [1, 0, 254]) ["$size"] = some (.int 3) ∧
+    (G { structs := [exFlat] } 4).has (rootView exFlat [.int 7] [0]) ["y"] = some false ∧
+    (G { structs := [exFlat] } 4).read (rootView exFlat [.int 7] [1, 0]) ["y"] = none := by
+  decide
+
+/-- … hence these are facts of R (derived through the theorem, not by hand), and R's size fact
+is the largest end of a present field. -/
+example : RFact exFlat [.int 7] [1, 0, 254] (.val ["v"] (.int 5)) ∧
+    RFact exFlat [.int 7] [0] (.pres ["y"] false) ∧
+    ∃ ρ : Env, ViewSpec.size (extents ρ exFlatPhys) = some 3 := by
+  refine ⟨(C01_G_refines_R_partial { structs := [exFlat] } exFlat (by decide) _ _ 4).1 _ _ (by decide),
+    (C01_G_refines_R_partial { structs := [exFlat] } exFlat (by decide) _ _ 4).2 _ _ (by decide), ?_⟩
+  obtain ⟨ρ, _, _, h⟩ := C01_R_size_is_max_end_partial exFlat [.int 7] [1, 0, 254] exFlatPhys (by decide)
+    "$size" exFlatSize (by rfl) rfl 3
+    ((C01_G_refines_R_partial { structs := [exFlat] } exFlat (by decide) _ _ 4).1 _ _ (by decide))
+  exact ⟨ρ, h⟩
 
 end Emboss.View
 
